@@ -3,6 +3,7 @@ package main
 // Loading /repo packages into go/ssa and parsing //@ contract comments.
 
 import (
+	"go/build/constraint"
 	"fmt"
 	"go/ast"
 	"go/parser"
@@ -274,12 +275,33 @@ func contractFiles(repo string) []string {
 	return out
 }
 
-func LoadContracts(repo string, extra []string) (*World, error) {
+// buildTagsMatch evaluates the //go:build line of a contract file against a tag set.
+func buildTagsMatch(src []byte, tags string) bool {
+	have := map[string]bool{}
+	for _, t := range strings.Split(tags, ",") {
+		have[strings.TrimSpace(t)] = true
+	}
+	for _, line := range strings.SplitN(string(src), "\n", 6) {
+		if constraint.IsGoBuild(line) {
+			e, err := constraint.Parse(line)
+			if err != nil {
+				return true
+			}
+			return e.Eval(func(tag string) bool { return have[tag] })
+		}
+	}
+	return true
+}
+
+func LoadContracts(repo string, extra []string, tags string) (*World, error) {
 	w := &World{Repo: repo, Contracts: map[string]*Contract{}, Specs: map[string]*SpecFn{}, UFuns: map[string]*UFun{}, ByFn: map[*ssa.Function]*Contract{}}
 	for _, f := range contractFiles(repo) {
 		src, err := os.ReadFile(f)
 		if err != nil {
 			return nil, err
+		}
+		if !buildTagsMatch(src, tags) {
+			continue
 		}
 		rel, _ := filepath.Rel(repo, filepath.Dir(f))
 		pkgPath := modPath + filepath.ToSlash(rel)
